@@ -419,8 +419,10 @@ func c20HistString(h []int) string {
 }
 
 type c20Replay struct {
-	Config string   `json:"config"`
-	Events []string `json:"events"`
+	Config    string   `json:"config"`
+	Events    []string `json:"events"`
+	Scenario  string   `json:"scenario,omitempty"`   // "" = pick_first channel, "lb" = stub LB policy with UpdateAddresses
+	LatencyMs int      `json:"latency_ms,omitempty"` // lb scenario: virtual duration of every dial
 }
 
 // c20Family: one block of the enumeration - all histories preamble ++ tail with
@@ -444,7 +446,7 @@ func TestVerif_C20_ChannelPacing(t *testing.T) {
 		{Alphabet: xalpha, Depth: xdepth, SkipBelow: c20BaseEvents},
 	}
 	preambles := [][]int{nil, {c20EvConnect, c20EvAdv10s}}
-	r.Rule(P, fmt.Sprintf("every event history of length exactly %d over the base alphabet {connect, advance 500ms, advance 1s, advance 10s, ResetConnectBackoff, next-dial-succeeds-then-server-closes} PLUS every history of length exactly %d over the extended alphabet %v that uses at least one of the added events (they choose how the following failing dials fail: slowfail(d) = the dialer blocks d of virtual time or until the connect deadline, then errors; stallclose1s = accepted, no server preface, closed by the server after 1s; instantfail = the default); oracle checked after every prefix: the gap from the END (failure) of attempt k to the START of attempt k+1 must lie within the statement's bounds for the consecutive-failure index; from 2 start points (fresh channel; channel after connect+10s of instant failures = retry index 4), for 2 backoff configs (base 1s, x2, max 8s, jitter 0 and 0.2; MinConnectTimeout 1s), each in a fresh synctest bubble with a real grpc.ClientConn and a scripted dialer; non-trivial = distinct histories in which at least one redial gap was checked against the bound", depth, xdepth, c20Events[:xalpha]))
+	r.Rule(P, fmt.Sprintf("every event history of length exactly %d over the base alphabet {connect, advance 500ms, advance 1s, advance 10s, ResetConnectBackoff, next-dial-succeeds-then-server-closes} PLUS every history of length exactly %d over the extended alphabet %v that uses at least one of the added events (they choose how the following failing dials fail: slowfail(d) = the dialer blocks d of virtual time or until the connect deadline, then errors; stallclose1s = accepted, no server preface, closed by the server after 1s; instantfail = the default); oracle checked after every prefix: the gap from the END (failure) of attempt k to the START of attempt k+1 must lie within the statement's bounds for the consecutive-failure index; from 2 start points (fresh channel; channel after connect+10s of instant failures = retry index 4), for 2 backoff configs (base 1s, x2, max 8s, jitter 0 and 0.2; MinConnectTimeout 1s), each in a fresh synctest bubble with a real grpc.ClientConn and a scripted dialer; PLUS a stub-LB-policy scenario with one subchannel: every history of length exactly %d over %v (UpdateAddresses with the same / a different / a superset / an empty address list, issued in whatever state the subchannel is in: IDLE, CONNECTING with a dial in flight, TRANSIENT_FAILURE backoff, READY), 2 start points, dials instant or taking 250ms, jitter-0 config; dials are grouped into attempts (passes over the address list) and the wait after a failed attempt is judged per subchannel; non-trivial = distinct histories in which at least one redial gap was checked against the bound", depth, xdepth, c20Events[:xalpha], r.Pick(4, 5), c20LBEvents))
 	if r.ReplayFile() != "" {
 		var rp c20Replay
 		if err := r.LoadReplay(&rp); err != nil {
@@ -452,6 +454,29 @@ func TestVerif_C20_ChannelPacing(t *testing.T) {
 			return
 		}
 		if rp.Config == "" { // leg A replay
+			return
+		}
+		if rp.Scenario == "lb" {
+			lidx := map[string]int{}
+			for i, e := range c20LBEvents {
+				lidx[e] = i
+			}
+			var h []int
+			for _, e := range rp.Events {
+				k, ok := lidx[e]
+				if !ok {
+					r.EngineError("replay: unknown event %q", e)
+					return
+				}
+				h = append(h, k)
+			}
+			res := c20RunLBHistory(t, c20ChanCfgs[0], time.Duration(rp.LatencyMs)*time.Millisecond, h)
+			r.Eval(P, 1)
+			fmt.Printf("replay lb latency=%dms events=%v dials=%v\n", rp.LatencyMs, rp.Events, res.Dials)
+			for _, f := range res.Fails {
+				fmt.Printf("FAIL %s: %s\n", f.Class, f.Desc)
+				r.Violation(P, fmt.Sprintf("lb/%s/L%dms", f.Class, rp.LatencyMs), f.Desc, rp)
+			}
 			return
 		}
 		idx := map[string]int{}
@@ -566,6 +591,79 @@ func TestVerif_C20_ChannelPacing(t *testing.T) {
 					i++
 				}
 			}
+		}
+	}
+	// ---- LB-policy scenario: one subchannel, SubConn.UpdateAddresses events ----
+	{
+		ldepth := r.Pick(4, 5)
+		lpre := [][]int{nil, {c20LBConnect, c20LBAdv10s}}
+		ltotal := 1
+		for k := 0; k < ldepth; k++ {
+			ltotal *= len(c20LBEvents)
+		}
+		var lbEvals, lbGaps, lbGapsAfterUpd, lbResets, lbAttempts, lbAmbig int64
+		upd := map[string]int64{}
+		lsampled := 0
+		tail := make([]int, ldepth)
+		for _, lat := range []time.Duration{0, 250 * time.Millisecond} {
+			for p := range lpre {
+				for code := 0; code < ltotal; code++ {
+					mine := r.Mine(i)
+					i++
+					if !mine {
+						continue
+					}
+					x := code
+					for k := ldepth - 1; k >= 0; k-- {
+						tail[k] = x % len(c20LBEvents)
+						x /= len(c20LBEvents)
+					}
+					h := append(append([]int(nil), lpre[p]...), tail...)
+					res := c20RunLBHistory(t, c20ChanCfgs[0], lat, h)
+					for _, f := range res.Fails {
+						if f.Class == "engine" {
+							r.EngineError("%s", f.Desc)
+							continue
+						}
+						fh := h
+						if res.FailAt <= len(h) {
+							fh = h[:res.FailAt]
+						}
+						evs := make([]string, len(fh))
+						for i, e := range fh {
+							evs[i] = c20LBEvents[e]
+						}
+						r.Violation(P, fmt.Sprintf("lb/%s/L%dms", f.Class, lat.Milliseconds()), f.Desc+"\n  config: "+fmt.Sprintf("%+v", c20ChanCfgs[0].Cfg)+fmt.Sprintf(", every dial takes %v", lat)+"\n  history: "+c20LBHistString(fh)+"\n  dials: "+fmt.Sprint(res.Dials), c20Replay{Config: c20ChanCfgs[0].Name, Events: evs, Scenario: "lb", LatencyMs: int(lat.Milliseconds())})
+					}
+					evals++
+					lbEvals++
+					if res.Checked > 0 {
+						nontriv++
+					}
+					lbGaps += int64(res.Checked)
+					lbGapsAfterUpd += int64(res.CheckedAfterUpd)
+					lbResets += int64(res.Resets)
+					lbAttempts += int64(res.Attempts)
+					lbAmbig += int64(res.EmptyAmbig)
+					for k, n := range res.Upd {
+						upd[k] += int64(n)
+					}
+					r.Outcome(P, fmt.Sprintf("lb:L%dms:attempts=%d,ok=%d,gaps=%d(afterListChange=%d),resetExcused=%d", lat.Milliseconds(), res.Attempts, res.Succ, res.Checked, res.CheckedAfterUpd, res.Resets))
+					if lsampled < 2 && res.CheckedAfterUpd > 0 && res.Succ > 0 {
+						lsampled++
+						r.Sample(P, map[string]any{"scenario": "lb", "dial_latency": lat.String(), "history": c20LBHistString(h), "dials": fmt.Sprint(res.Dials)})
+					}
+				}
+			}
+		}
+		r.AddInt(P, "lb_histories_run", lbEvals)
+		r.AddInt(P, "lb_attempts_seen", lbAttempts)
+		r.AddInt(P, "lb_redial_gaps_checked", lbGaps)
+		r.AddInt(P, "lb_redial_gaps_checked_with_an_address_list_change_during_the_wait", lbGapsAfterUpd)
+		r.AddInt(P, "lb_short_gaps_excused_by_reset", lbResets)
+		r.AddInt(P, "lb_times_retry_index_became_a_lower_estimate_after_an_empty_list", lbAmbig)
+		for k, n := range upd {
+			r.AddInt(P, "lb_UpdateAddresses/"+k, n)
 		}
 	}
 	r.Eval(P, evals)
